@@ -75,8 +75,10 @@ struct MutexImpl {
     // executor for current coroutine resume
     auto curr_executor = std::exchange(curr._executor, &executor);
     YACLIB_ASSERT(curr_executor != nullptr);
-    executor.Submit(curr);
+    // curr is submitted only after the last access to the mutex: once resumed on executor it may finish and its
+    // owner may destroy the mutex while we are still here
     if (TryUnlockAwait()) {
+      executor.Submit(curr);
       YACLIB_SUSPEND();
     }
     auto& next = GetHead();
@@ -85,10 +87,12 @@ struct MutexImpl {
         _receiver = static_cast<BaseCore*>(next.next);
         // curr_executor for next critical section
         next._executor = std::move(curr_executor);
+        executor.Submit(curr);
         YACLIB_TRANSFER(next.Curr());
       }
     }
     _receiver = static_cast<BaseCore*>(next.next);
+    executor.Submit(curr);
     // next._executor for next critical section
     next._executor->Submit(next);
     YACLIB_SUSPEND();
